@@ -122,9 +122,9 @@ def table_check(case):
         if not valid.any():
             continue            # no extractable spike at all: nothing to select (not covered by the property)
         for max_wf in (1, 2, 3, 4):
-            for sd in (0, 1, 5):
+            for sd, dt in ((0, np.int64), (1, np.uint64), (5, np.int32), (2, np.uint32)):     # spike times as sorters store them (Kilosort: uint64)
                 try:
-                    tab, units = wx._make_wfs_table(_FakeSr(), ss, sc, sch, max_wf=max_wf, trough_offset=TROUGH, spike_length_samples=LENGTH, seed=sd)
+                    tab, units = wx._make_wfs_table(_FakeSr(), ss.astype(dt), sc, sch, max_wf=max_wf, trough_offset=TROUGH, spike_length_samples=LENGTH, seed=sd)
                     ntr += 1
                 except TypeError:
                     return Res([], o="skipped", nt=False, tr=0)         # the private helper changed its signature: covered by the file-level clause only
@@ -139,8 +139,8 @@ def table_check(case):
                     allowed = sorted(ss[valid & (sc == u)].tolist())
                     tag = ":first-spike" if (valid[0] and sc[0] == u) else ""
                     if len(got) != exp or len(set(got)) != len(got) or any(g not in allowed for g in got):
-                        seen.setdefault("table:count" + tag, "unit %d has %d spikes outside the margins (%r), max_wf=%d, seed %d: table holds samples %r (expected %d distinct of them); spikes=%r"
-                                        % (u, nvalid, allowed, max_wf, sd, got, exp, spikes))
+                        seen.setdefault("table:count" + tag, "unit %d has %d spikes outside the margins (%r), max_wf=%d, seed %d, spike times as %s: table holds samples %r (expected %d distinct of them); spikes=%r"
+                                        % (u, nvalid, allowed, max_wf, sd, np.dtype(dt).name, got, exp, spikes))
                 wi = np.sort(tab["waveform_index"].to_numpy())
                 if not np.array_equal(wi, np.arange(len(tab))):
                     seen.setdefault("table:waveform_index", "waveform_index %r is not a permutation of 0..n-1" % (tab["waveform_index"].tolist(),))
@@ -245,7 +245,8 @@ def _spike_train(ns, chunks, nsites, variant):
         if j % 4 == 0:
             spikes.append((t, 3 + (j % 2), (j * 5 + 1) % nsites))           # same time in another unit
     spikes.sort()
-    return (np.array([s[0] for s in spikes]), np.array([s[1] for s in spikes]), np.array([s[2] for s in spikes]))
+    dt = (np.int64, np.uint64, np.int32, np.uint32)[variant % 4]          # spike times as sorters store them (Kilosort: uint64)
+    return (np.array([s[0] for s in spikes]).astype(dt), np.array([s[1] for s in spikes]), np.array([s[2] for s in spikes]))
 
 
 def _run_extract(fbin, outdir, spikes, max_wf, chunk, order, seed):
